@@ -20,8 +20,10 @@
    5. Move CONSTRUCTION of any property - an input with readers, a bound property, one with observers - keeps coherence
       (coq/PropMove.v: a re-targeting changes nothing of a tree but its leaf targets, so every tree abstracts to the old abstraction
       with the source renamed to the destination, and the abstract invariant is stable under that renaming):
-      C02_move_construction_keeps_coherence, C02_network_with_moves_consistent.
-   PARTIAL: observers that write and move ASSIGNMENT are covered by
+      C02_move_construction_keeps_coherence, C02_network_with_moves_consistent. Move ASSIGNMENT over a destination that no live
+      binding reads (whatever it holds: observers, a binding of its own) likewise: C02_move_assignment_keeps_coherence; assigning
+      over a property that IS read leaves readers whose inputs no longer all exist (PropertyDestroyedError, C10/C11).
+   PARTIAL: observers that write are covered by
    PropCheck.check_c02 on every world reached by the generated histories and by correspondence, not by the refinement. *)
 From Coq Require Import List ZArith.
 Import ListNotations.
@@ -119,7 +121,16 @@ Theorem C02_move_construction_keeps_coherence :
 Proof. exact PropMove.grow_movector. Qed.
 Print Assumptions C02_move_construction_keeps_coherence.
 
-(* ... hence, from the empty world: histories of grow_op3 = grow_op2 + move construction *)
+(* move assignment over a destination that no live binding reads *)
+Theorem C02_move_assignment_keeps_coherence :
+  forall fn rtl fuel w dst src w',
+    PropSim.SC w -> PropSim.COH fn w -> PropFlags.NOEMIT w ->
+    (forall b lf, PropLink.has_leaf w b lf -> PropLink.lf_tg lf <> Some dst) ->
+    PropDefs.step1 fn rtl fuel w (PropDefs.PMoveAssign dst src) = (w', None) -> PropSim.SC w' /\ PropSim.COH fn w'.
+Proof. exact PropMove.grow_moveassign. Qed.
+Print Assumptions C02_move_assignment_keeps_coherence.
+
+(* ... hence, from the empty world: histories of grow_op3 = grow_op2 + move construction + move assignment over unread destinations *)
 Theorem C02_network_with_moves_consistent :
   forall fn rtl fuel ops q x pr z,
     PropMove.grow3_run_ok fn rtl fuel PropDefs.world0 ops ->
@@ -179,4 +190,19 @@ Example C02_move_example :
   PropMove.grow3_run_ok fn true 8 PropDefs.world0 ops /\
   nth_error (PropDefs.w_trace (PropDefs.run fn true 8 ops)) 1 = Some (PropDefs.EvVal (Some 7%Z)) /\
   nth_error (PropDefs.w_trace (PropDefs.run fn true 8 ops)) 3 = Some (PropDefs.EvVal (Some 12%Z)).
+Proof. vm_compute. repeat split; reflexivity. Qed.
+
+(* non-vacuity of move assignment: the bound property 3 (end of the chain, observed) is overwritten by the plain property 9;
+   input 0 is overwritten by ... nothing: it is read, so that would not be a grow_op3 history *)
+Example C02_move_assignment_example :
+  let fn := fun (f : nat) (l : list Z) => Some (fold_right Z.add 0%Z l) in
+  let ops := [PropDefs.PNew 0 1%Z; PropDefs.PNew 1 2%Z; PropDefs.PNew 9 40%Z;
+              PropDefs.PBind 2 (PropDefs.EOp2 0 (PropDefs.EProp 0) (PropDefs.EProp 1)) PropDefs.MImmediate;
+              PropDefs.PBind 3 (PropDefs.EOp2 1 (PropDefs.EProp 2) (PropDefs.EProp 0)) PropDefs.MImmediate;
+              PropDefs.PObserve 3 PropDefs.KChanged 7 0 None;
+              PropDefs.PMoveAssign 3 9; PropDefs.PSet 0 5%Z PropDefs.WSet; PropDefs.PGet 3; PropDefs.PGet 2] in
+  PropMove.grow3_run_ok fn true 8 PropDefs.world0 ops /\
+  nth_error (PropDefs.w_trace (PropDefs.run fn true 8 ops)) 1 = Some (PropDefs.EvVal (Some 7%Z)) /\
+  nth_error (PropDefs.w_trace (PropDefs.run fn true 8 ops)) 3 = Some (PropDefs.EvVal (Some 40%Z)) /\
+  PropGrowMore.no_reader_b (PropDefs.run fn true 8 (firstn 6 ops)) 0 = false.
 Proof. vm_compute. repeat split; reflexivity. Qed.
